@@ -42,7 +42,7 @@ LEVEL_NOTE = ("Bounded: <= 3 calibrated parameters, vectors of length 2 and 3, o
               "Trusted: pygmo, the reference walker, a relative tolerance of 1e-12 on 10**x and log10(x).")
 DESIGN_REF = "DESIGN.md section 4, C10"
 RULE = ("cases = all layouts (ordered tuples of 1..3 parameter kinds out of 10 kinds; quick: <= 2 parameters) + optimisation "
-        "runs (layouts of <= 2 parameters x algorithm x seed x islands; quick: a fixed sub-family); a case is non-trivial when "
+        "runs (layouts of <= 2 parameters x algorithm x seed x islands; quick: each layout once, single-parameter layouts with all 3 algorithms); a case is non-trivial when "
         "at least one probe evaluation was logged; distinct = distinct (layout, expected bounds, family) signatures")
 NSHARDS = 64
 ASSUMPTIONS = [
@@ -188,30 +188,19 @@ def enumerate_cases(tier, seed):
                     for isl in (1, 2):
                         cases.append({"fam": "run", "layout": lay, "algo": algo, "pygmo_seed": ps, "islands": isl})
     else:
-        # fixed sub-family: every single-parameter layout with each algorithm, and the 2-parameter layouts whose
-        # kinds differ in "logarithmic" or "vector" (the ones where a wrong slice is observable), one algorithm each
+        # fixed sub-family: every single-parameter layout with each algorithm, every 2-parameter layout with one
+        # algorithm (rotating), seeds and island counts rotating
         for t, lay in enumerate(small):
-            if len(lay) == 1:
-                for u, algo in enumerate(ALGOS):
-                    cases.append({"fam": "run", "layout": lay, "algo": algo, "pygmo_seed": 1 + (t + u) % 2,
-                                  "islands": 1 + (t + u + 1) % 2})
-            else:
-                a, b = kind_info(lay[0]), kind_info(lay[1])
-                if a["log"] != b["log"] and (a["vector"] or b["vector"]) and a["per"] == b["per"]:
-                    cases.append({"fam": "run", "layout": lay, "algo": ALGOS[t % 3], "pygmo_seed": 1 + t % 2,
-                                  "islands": 1 + (t // 2) % 2})
+            for u, algo in enumerate(ALGOS if len(lay) == 1 else (ALGOS[t % 3],)):
+                cases.append({"fam": "run", "layout": lay, "algo": algo, "pygmo_seed": 1 + (t + u) % 2,
+                              "islands": 1 + ((t // 2) + u + 1) % 2})
     return cases
 
 
 def expected_size(tier, seed):
     if tier == "thorough":
         return 1110 + 110 * 3 * 2 * 2
-    n2 = 0
-    for lay in layouts(2):
-        if len(lay) == 2:
-            a, b = kind_info(lay[0]), kind_info(lay[1])
-            n2 += int(a["log"] != b["log"] and (a["vector"] or b["vector"]) and a["per"] == b["per"])
-    return 110 + 10 * 3 + n2
+    return 110 + 10 * 3 + 100
 
 
 # ---------------------------------------------------------------- construction
